@@ -64,11 +64,23 @@ def kernel(w, rep, fn, true_name="labels", pred_name="preds"):
     return li, ("idx", li.domain[2][kt], pos), ("idx", li.domain[2][1 - kt], pos), pre
 
 
-def n_class_ok(t, true_name="labels"):
+from ..ir import mk_cmp, tkey  # noqa: E402
+from ..rules_premise import values_of  # noqa: E402
+
+
+def n_class_ok(t, true_name="labels", pred_name="preds"):
     for mx in ("numpy.max", "numpy.amax"):
         for lab in (("param", true_name), asarr(true_name)):
-            if t == ("bin", "+", *sorted([("const", 1), ("call", ("mod", mx), (lab,), ())], key=repr)):
+            top = ("call", ("mod", mx), (lab,), ())
+            if t == ("bin", "+", *sorted([("const", 1), top], key=repr)):
                 return True
+            # max(max(labels), max(preds)) + 1: the property's inputs have their predictions within the labels' range,
+            # where the larger of the two maxima is the labels'
+            for mp in ("numpy.max", "numpy.amax"):
+                for pr in (("param", pred_name), asarr(pred_name)):
+                    both = ("max", tuple(sorted([top, ("call", ("mod", mp), (pr,), ())], key=tkey)))
+                    if t == ("bin", "+", *sorted([("const", 1), both], key=repr)):
+                        return True
     return False
 
 
@@ -172,7 +184,9 @@ def check_accuracy(rep, repo):
 
 def check_confusion(rep, repo):
     fi = repo.need_function(GEN, "confusion_matrix")
-    w = Walker(repo, fi, inline=inline_same_module_private(fi))
+    from ..rules_premise import main_returns, values_view
+    w0 = Walker(repo, fi, inline=inline_same_module_private(fi))
+    w = values_view(w0)
     k = kernel(w, rep, fi)
     if not k:
         return
@@ -199,7 +213,8 @@ def check_confusion(rep, repo):
             and len(arr[2][0][1]) == 2 and all(n_class_ok(x) for x in arr[2][0][1]) and wide_counter(arr)
         rep.fn("CM-shape", fi, "K x K zeros with K = max(labels) + 1, counters wide enough for any sample count", shape,
                f"matrix is '{show(arr)}' (a counter type taken from the labels wraps around for narrow integer labels)")
-        rets = [e for e in w.events if e.kind == "return" and e.fn is w.entry]
+        rets = [values_of(r.value) for r in main_returns(w0)]
+        rets = [e for e in w.events if e.kind == "return" and e.fn is w.entry and e.value in rets]
         rep.fn("CM-return", fi, "the counted matrix is returned", len(rets) == 1 and rets[0].value == arr, "")
 
 
@@ -244,7 +259,8 @@ def check_per_label(rep, repo):
 def check_purity(rep, repo):
     fi = repo.need_function(GEN, "purity")
     w = Walker(repo, fi, inline=inline_same_module_private(fi))
-    rets = [e for e in w.events if e.kind == "return" and e.fn is w.entry]
+    from ..rules_premise import main_returns
+    rets = main_returns(w)
     ok = False
     if len(rets) == 1:
         cm = ("call", ("mod", "opfython.math.general.confusion_matrix"), (("param", "labels"), ("param", "preds")), ())
@@ -296,7 +312,11 @@ def check_normalize(rep, repo):
     if len(rets) == 1:
         mean = ("call", ("mod", "numpy.mean"), (a,), (("axis", ("const", 0)),))
         std = ("call", ("mod", "numpy.std"), (a,), (("axis", ("const", 0)),))
-        ok = rets[0].value == ("bin", "/", ("bin", "-", a, mean), std)
+        # (the property speaks of non-constant columns: `where(std == 0, <anything>, std)` is std there)
+        safe = [("call", ("mod", "numpy.where"), (mk_cmp("==", std, z), ("const", v), std), ()) for z in (("const", 0), ("const", 0.0))
+                for v in (1, 1.0)]
+        ok = rets[0].value[0] == "bin" and rets[0].value[1] == "/" and rets[0].value[2] == ("bin", "-", a, mean) \
+            and rets[0].value[3] in [std] + safe
     rep.fn("NORM", fi, "normalize = (a - column mean) / column standard deviation", ok,
            f"returns '{show(rets[0].value)[:160] if rets else '?'}'")
 
